@@ -316,7 +316,7 @@ def run_property(pid, tier, seed, replay=None):
             script = os.path.join(outdir, "script_%d.ndjson" % pi)
             if "hunt" in ph:
                 budget = spec.get("hunt_ms", (4000, 90000))[1 if tier == "thorough" else 0]
-                g = vdrive(profiles[0], ["hunt", ph["hunt"], str(seed), str(budget), script])
+                g = vdrive(spec.get("hunt_profile", profiles[0]), ["hunt", ph["hunt"], str(seed), str(budget), script])
                 log("[hunt] %s: %s" % (ph["hunt"], g))
                 hunt_stats.append(g)
             else:
